@@ -5,6 +5,7 @@
 (* report pass) through PromReporter.tla.                                  *)
 (*  new    {flavour, cbPanics, cbObs, via, specs:{name:[bound tokens]}}    *)
 (*  alloc  {as, name, tm:[[k,v]..], h, res: live|noop|panic|unknown, cb}   *)
+(*  register {as, name, keys, res}   RegisterCounter / Gauge / Timer         *)
 (*  rep    {h, v, res}                                                     *)
 (*  gather {pass, err, series:[{name, kind, tm, sum, last, count, cum}]}   *)
 (*  cbtotal {n}   callbacks seen during a case of concurrent first uses    *)
@@ -64,6 +65,10 @@ TNext ==
                ELSE IF r.res \in {"live", "noop"} /\ r.res # out'.res THEN Fail("UsableOrNoop:" \o r.res \o "-instead-of-" \o out'.res)
                ELSE IF cbObs /\ r.cb # out'.cb THEN Fail("RejectionReported")
                ELSE TRUE
+       [] r.e = "register" ->
+            /\ Register(r.as, r.name, {r.keys[i] : i \in 1..Len(r.keys)})
+            /\ cbObs' = cbObs /\ hmap' = hmap /\ cbSum' = cbSum
+            /\ IF r.res # out'.res THEN Fail("Drift:register-result") ELSE TRUE
        [] r.e = "rep" ->
             /\ cbObs' = cbObs /\ hmap' = hmap /\ cbSum' = cbSum
             /\ IF r.h \in DOMAIN hmap
